@@ -3,6 +3,7 @@
 // the real oomd objects linked into the harness (see DESIGN.md 3.2).
 #pragma once
 #include <json/json.h>
+#include <atomic>
 #include <sys/types.h>
 #include <time.h>
 #include <cstdint>
@@ -50,7 +51,7 @@ struct Shim {
   int64_t base_ns{0}; // real CLOCK_MONOTONIC at case start
   int64_t velapsed_ns{0};
 
-  int tick{-1};
+  std::atomic<int> tick{-1};
   long access_count{0}; // file accesses (open/openat/fopen/opendir/faccessat/xattr)
   bool log_access{false};
   bool dt_unknown{false};
